@@ -114,54 +114,6 @@ Proof.
   - intro x. rewrite Hfl by reflexivity. apply D.
 Qed.
 
-Lemma step_join_other s b n c : Inv s b -> feq n (s_me s) = false ->
-  let '(s', ms) := step nick0 true uh s (AJoin n [c]) in Inv s' (fa b ms).
-Proof.
-  intros I Hnm. cbn [step]. destruct (idict_get n (s_users s)) as [u|] eqn:En; [|exact I].
-  rewrite Hnm. cbn [fold_left join_other]. unfold join_chan.
-  destruct (valid_chan c) eqn:Vc; cbn [negb]; [|exact I].
-  assert (Hhasn : idict_has n (s_users s) = true) by (unfold idict_has; rewrite En; reflexivity).
-  assert (Hmn : feq (s_me s) n = false) by (rewrite feq_sym; exact Hnm).
-  assert (Hfresh : Inv (set_chans_s s (idict_set c (fresh_chan n) (s_chans s)))
-                       (fa b (if true && mych s c then [Msg (hostmask u) str_JOIN [join [COMMA] ([] ++ [c])]] else [])) \/ True) by (right; exact Logic.I).
-  clear Hfresh.
-  destruct (idict_get c (s_chans s)) as [ch|] eqn:Ec.
-  - destruct (sc_members ch) as [|m0 ms0] eqn:Em.
-    + assert (Hmy : mych s c = false).
-      { unfold mych. rewrite Ec. unfold is_member, idict_has. rewrite Em. reflexivity. }
-      rewrite Hmy. cbn [andb]. rewrite fa_nil. apply set_invisible; assumption.
-    + destruct (is_member n ch) eqn:Emn; cbn [andb]; [exact I|].
-      unfold mych. rewrite Ec. destruct (is_member (s_me s) ch) eqn:Eme; cbn [app].
-      * rewrite fa_one by reflexivity. cbn [join].
-        destruct (wf_users s (inv_wf s b I) n u En) as [Hk Hgu].
-        assert (Hnn : nice_nick (su_nick u)) by (apply valid_nick_nice; apply Hgu).
-        apply (cmd_visible s b n u c ch (add_member n) (fun bc => set_users bc (iset_add (su_nick u) (c_users bc)))
-                 str_JOIN [c] st_doJoin); try assumption; try reflexivity.
-        -- intros; discriminate.
-        -- exact addMsg_JOIN.
-        -- intros b1 Hb1 _. unfold st_doJoin. cbn [m_args].
-           apply andb_true_iff in Vc as [Vc _].
-           rewrite (split_char_nomem COMMA c (isChannel_nocomma c Vc)). cbn [fold_left].
-           assert (Hh : idict_has c (b_chans b1) = true).
-           { rewrite Hb1, (inv_chans s b I). unfold mych. rewrite Ec. exact Eme. }
-           rewrite Hh. rewrite (msg_nick_user u _ _ Hgu). unfold chan_upd. f_equal.
-           apply chans_update_ext. intro bc. apply addUser_plain. exact Hnn.
-        -- unfold is_member, add_member. cbn [sc_members set_members]. rewrite idict_has_set.
-           unfold is_member in Eme. rewrite Eme. apply orb_true_r.
-        -- intros x Hx. unfold is_member, add_member in Hx. cbn [sc_members set_members] in Hx. rewrite idict_has_set in Hx.
-           apply orb_true_iff in Hx as [Hx|Hx]; [right; exact Hx|left; exact Hx].
-        -- intros f v Hf. apply (wf_modes s (inv_wf s b I) c ch f v Ec Hf).
-        -- intros bc Hr. apply rel_join; assumption.
-      * rewrite fa_nil. apply (upd_invisible s c ch (add_member n) Ec b I Eme).
-        -- unfold is_member, add_member. cbn [sc_members set_members]. rewrite idict_has_set, Hmn.
-           unfold is_member in Eme. exact Eme.
-        -- intros x Hx. unfold is_member, add_member in Hx. cbn [sc_members set_members] in Hx. rewrite idict_has_set in Hx.
-           apply orb_true_iff in Hx as [Hx|Hx]; [rewrite (idict_has_feq x n _ Hx); exact Hhasn|].
-           apply (wf_members s (inv_wf s b I) c ch x Ec Hx).
-        -- intros f v Hf. apply (wf_modes s (inv_wf s b I) c ch f v Ec Hf).
-  - assert (Hmy : mych s c = false) by (unfold mych; rewrite Ec; reflexivity).
-    rewrite Hmy. cbn [andb]. rewrite fa_nil. apply set_invisible; assumption.
-Qed.
 (* ---- the bot joins a channel nobody is on: JOIN, NAMES (@me), end of names, 324 "+", 329, WHO reply ---- *)
 Definition at_chan (b0 b1 : bot) (c : str) (bc : chan) (hm me : str) : Prop :=
   b_nick b1 = b_nick b0
